@@ -69,6 +69,36 @@ func (fr *frame) oblige(kind, what string, cond Term, p token.Pos) *Obligation {
 	return o
 }
 
+// obligeSplit records one obligation per top-level conjunct of cond (better diagnostics, smaller goals).
+func (fr *frame) obligeSplit(kind, what string, cond Term, p token.Pos, facet string, tags []string) {
+	cs := splitAnd(cond)
+	for i, c := range cs {
+		w := what
+		if len(cs) > 1 {
+			w = fmt.Sprintf("%s.c%d", what, i+1)
+		}
+		if o := fr.oblige(kind, w, c, p); o != nil {
+			o.Facet, o.Tags = facet, tags
+		}
+	}
+}
+
+// splitAnd flattens nested top-level conjunctions.
+func splitAnd(t Term) []Term {
+	if !strings.HasPrefix(t, "(and ") {
+		return []Term{t}
+	}
+	parts := splitTopLevel(t)
+	if len(parts) < 2 || parts[0] != "and" {
+		return []Term{t}
+	}
+	var out []Term
+	for _, p := range parts[1:] {
+		out = append(out, splitAnd(p)...)
+	}
+	return out
+}
+
 func (fr *frame) assume(cond Term) {
 	fr.fx.enc.Assume(Implies(fr.curReach, cond))
 }
@@ -628,9 +658,7 @@ func (fr *frame) enterLoop(l *loop, st *State) *State {
 			continue
 		}
 		if facetLevel[c.Facet] == fr.level {
-			if o := fr.oblige("inv-entry", fmt.Sprintf("loop%d.%s", l.ord, clauseName(c)), t, l.header.Instrs[0].Pos()); o != nil {
-				o.Facet, o.Tags = c.Facet, c.Tags
-			}
+			fr.obligeSplit("inv-entry", fmt.Sprintf("loop%d.%s", l.ord, clauseName(c)), t, l.header.Instrs[0].Pos(), c.Facet, c.Tags)
 		}
 	}
 	// havoc what the loop modifies
@@ -691,9 +719,7 @@ func (fr *frame) backEdge(l *loop, cond Term, st *State) {
 			fr.specError(c, err)
 			continue
 		}
-		if o := fr.oblige("inv-step", fmt.Sprintf("loop%d.%s", l.ord, clauseName(c)), t, l.header.Instrs[0].Pos()); o != nil {
-			o.Facet, o.Tags = c.Facet, c.Tags
-		}
+		fr.obligeSplit("inv-step", fmt.Sprintf("loop%d.%s", l.ord, clauseName(c)), t, l.header.Instrs[0].Pos(), c.Facet, c.Tags)
 	}
 	hi := fr.loopHead[l]
 	if hi != nil && fr.level == 0 {
